@@ -4,6 +4,7 @@ import os
 import re
 import sys
 from collections.abc import Iterator, Sequence
+from decimal import Decimal
 from string import Template
 from types import TracebackType
 from typing import TYPE_CHECKING, Any, cast
@@ -457,6 +458,14 @@ class FakeSnowflakeCursor:
                 params = tuple(convert(v) for v in params)
 
             return command % params, None
+
+        if params and not isinstance(params, dict):
+            # duckdb binds python ints outside the int64 range as DOUBLE which silently rounds them (eg: 10**20 - 1
+            # arrives as 10**20), so bind them as Decimal to keep NUMBER(38,0) values exact
+            params = [
+                Decimal(p) if type(p) is int and not -(2**63) <= p < 2**63 else p  # noqa: E721
+                for p in params
+            ]
 
         return command, params
 
